@@ -226,20 +226,39 @@ func Random(rng *rand.Rand, cfg Config) *Node {
 		// a few more top-level shapes
 		root = &Node{Kind: KSeq, Subs: []*Node{root, s.node(cfg.MaxDepth - 1)}}
 	}
-	AssignGroups(root, cfg.Opts)
+	// Resolve reference targets now that the structure is final. A reference whose target
+	// parenthesis is not in the tree (it belonged to a discarded candidate) or does not capture in
+	// this configuration is replaced (by a literal / by its first branch); replacing can drop
+	// further groups, so repeat until stable, then number the groups and fill the numbers in.
 	caps := s.caps
-	root.WalkPost(func(n *Node) {
+	for changed := true; changed; {
+		changed = false
+		AssignGroups(root, cfg.Opts)
+		inTree := map[*Node]bool{}
+		root.Walk(func(n *Node) { inTree[n] = true })
+		root.WalkPost(func(n *Node) {
+			if (n.Kind == KRef || n.Kind == KCondRef) && n.Group < 0 {
+				target := caps[-1-n.Group]
+				if !inTree[target] || target.Group == 0 {
+					if n.Kind == KRef {
+						*n = Node{Kind: KLit, Ch: 'a'}
+					} else {
+						// move the first branch up (keep pointer identity of its children)
+						sub := n.Subs[0]
+						if sub.Kind == KCap {
+							*n = Node{Kind: KGroup, Subs: []*Node{sub}}
+						} else {
+							*n = *sub
+						}
+					}
+					changed = true
+				}
+			}
+		})
+	}
+	root.Walk(func(n *Node) {
 		if (n.Kind == KRef || n.Kind == KCondRef) && n.Group < 0 {
 			target := caps[-1-n.Group]
-			if target.Group == 0 {
-				// not a capturing group in this configuration
-				if n.Kind == KRef {
-					*n = Node{Kind: KLit, Ch: 'a'}
-				} else {
-					*n = *n.Subs[0]
-				}
-				return
-			}
 			n.Group = target.Group
 			if target.Name != "" && n.Style%2 == 1 {
 				n.Name = target.Name
